@@ -306,6 +306,20 @@ Proof.
   - intros H1 H2. right. apply IH; assumption.
 Qed.
 
+(* without expression-only references the front end reads exactly what the composite fields reach *)
+Lemma closure_all_deps i : trig_constref i = false ->
+  forall fuel t, In t (all_types i) -> closure_by t_all i fuel t = closure_by t_deps i fuel t.
+Proof.
+  intros Htr. induction fuel as [|n IH]; intros t Ht; cbn [closure_by]; [reflexivity|]. f_equal.
+  assert (Hc : t_crefs t = []).
+  { unfold trig_constref in Htr. destruct (t_crefs t) eqn:E; [reflexivity|]. exfalso.
+    assert (existsb (fun t => nonempty_keys (t_crefs t)) (all_types i) = true).
+    { apply existsb_exists. exists t. split; [assumption|]. rewrite E. reflexivity. }
+    congruence. }
+  unfold t_all at 2. rewrite Hc, app_nil_r. apply flat_map_ext. intros key.
+  destruct (find_type i key) as [d|] eqn:E; [|reflexivity]. apply IH. unfold find_type in E. apply find_some in E. apply E.
+Qed.
+
 Lemma closure_roots i : trig_lookup i = false -> forall fuel t, In t (i_roots i) -> forall d, In d (closure i fuel t) -> In d (i_roots i).
 Proof.
   intros Htr. unfold trig_lookup in Htr. apply negb_false_iff in Htr. rewrite forallb_forall in Htr.
@@ -337,7 +351,7 @@ Proof. intros H. unfold listed_sources. rewrite types_read_modes by assumption. 
 
 Lemma listed_dep_sources_modes k c i d o li : chk_stable k (c_flags c) = true ->
   listed_dep_sources k (with_flags c (set_modes (c_flags c) d o li)) i = listed_dep_sources k c i.
-Proof. intros H. unfold listed_dep_sources, dsdl_influences. rewrite types_read_modes by assumption. reflexivity. Qed.
+Proof. intros H. unfold listed_dep_sources, sources_by. rewrite types_read_modes by assumption. reflexivity. Qed.
 
 (* ---- the derived template closure stays inside the loader chain -------------------------------- *)
 Lemma in_concat_chain (ch : list (list tfile)) f : In f (concat ch) <-> exists d, In d ch /\ In f d.
@@ -446,19 +460,26 @@ Proof.
     + (* a DSDL source *)
       unfold lists_sources in Hls. rewrite existsb_exists in Hls. destruct Hls as (b & Hb' & Hbe).
       destruct b as [|?|al|?| |]; try discriminate.
-      unfold dsdl_influences in Hx. apply in_flat_map in Hx. destruct Hx as (t & Ht & Hx).
+      unfold dsdl_influences, sources_by in Hx. apply in_flat_map in Hx. destruct Hx as (t & Ht & Hx).
       apply in_map_iff in Hx. destruct Hx as (d & <- & Hd).
+      assert (Hall : In t (all_types i)).
+      { unfold types_read in Ht. destruct (beval (c_flags c) false false false (k_read k)); [|destruct Ht].
+        unfold all_types. apply in_or_app. left; assumption. }
       destruct (path_in (t_src d) (map t_src (types_read k c i))) eqn:Ein.
       * apply in_flat_map. exists (EListSources al). split; [assumption|]. cbn [listed_by].
         rewrite listed_sources_modes by assumption. unfold listed_sources. apply in_or_app. right. apply path_in_spec. exact Ein.
       * unfold eff_trig_lookup in Hlk. destruct (k_fix_lookup k); cbn [negb orb andb] in Hlk, Hld.
-        -- unfold lists_deps in Hld. rewrite existsb_exists in Hld. destruct Hld as (b & Hb2 & Hbe2).
+        -- (* the dependency listing is there *)
+           unfold lists_deps in Hld. rewrite existsb_exists in Hld. destruct Hld as (b & Hb2 & Hbe2).
            destruct b; try discriminate.
            apply in_flat_map. exists EListDepSources. split; [assumption|]. cbn [listed_by].
-           rewrite listed_dep_sources_modes by assumption. unfold listed_dep_sources. apply filter_In. split.
-           ++ unfold dsdl_influences. apply in_flat_map. exists t. split; [assumption|]. apply in_map. exact Hd.
-           ++ rewrite Ein. reflexivity.
-        -- exfalso. unfold types_read in Ht, Ein.
+           rewrite listed_dep_sources_modes by assumption. unfold listed_dep_sources. apply filter_In. split; [|rewrite Ein; reflexivity].
+           unfold sources_by. apply in_flat_map. exists t. split; [assumption|]. apply in_map.
+           destruct (k_fix_constref k); [exact Hd|].
+           rewrite orb_false_r in Hlk. rewrite (closure_all_deps i Hlk _ t Hall) in Hd. exact Hd.
+        -- exfalso. apply orb_false_iff in Hlk. destruct Hlk as [Hcr Hlk].
+           rewrite (closure_all_deps i Hcr _ t Hall) in Hd.
+           unfold types_read in Ht, Ein.
            destruct (beval (c_flags c) false false false (k_read k)); [|destruct Ht].
            pose proof (closure_roots i Hlk _ t Ht d Hd) as Hroot.
            assert (path_in (t_src d) (map t_src (i_roots i)) = true) by (apply path_in_spec; apply in_map; exact Hroot).
@@ -511,17 +532,17 @@ Qed.
    configuration files, which are excluded explicitly (they are neither templates nor DSDL files and are not listed) *)
 Theorem list_inputs_complete_gen k : guards_ok k = true -> (forall fl nse, chk_inputs k fl nse = true) ->
   (forall fl, chk_stable k fl = true) ->
-  k_fix_lookup k = true -> k_fix_nonj2 k = true -> k_fix_suptpl k = true ->
+  k_fix_lookup k = true -> k_fix_constref k = true -> k_fix_nonj2 k = true -> k_fix_suptpl k = true ->
   forall c i, f_lc (c_flags c) = false -> beval (c_flags c) false false false (k_reject k) = false -> ns_clash k c i = false ->
   trig_py k c i = false -> trig_sup_refs k c = false ->
   forall x, In x (all_influences k c i) -> is_config_input c x = false ->
   forall f, exists out, run k (li_of c) i f = (f, out, Ok) /\ In x out.
 Proof.
-  intros HG Hchk Hst H1 H2 H3 c i Hlc Hrej Hclash Hpy Hrefs x Hx Hcfg.
+  intros HG Hchk Hst H1 H1c H2 H3 c i Hlc Hrej Hclash Hpy Hrefs x Hx Hcfg.
   unfold all_influences in Hx. apply in_app_or in Hx. destruct Hx as [Hx|Hx].
   2:{ exfalso. unfold is_config_input in Hcfg. apply path_in_spec in Hx. congruence. }
   clear Hcfg. revert x Hx. apply (list_inputs_partial_gen k HG Hchk Hst c i Hlc Hrej Hclash).
-  - unfold eff_trig_lookup. rewrite H1. reflexivity.
+  - unfold eff_trig_lookup. rewrite H1, H1c. reflexivity.
   - unfold eff_trig_tpl. rewrite H2. exact Hpy.
   - unfold eff_trig_sup. rewrite H3, Hrefs. reflexivity.
   - rewrite H3. reflexivity.
